@@ -278,7 +278,7 @@ def unify(a, b):
 class PathCtx:
     """One path = one deterministic re-execution driven by `prefix`."""
 
-    def __init__(self, prefix, solver_timeout_ms=4000):
+    def __init__(self, prefix, solver_timeout_ms=int(__import__('os').environ.get('PYVC_FEAS_MS', '600'))):
         self.prefix = list(prefix)
         self.taken = []
         self.alternatives = []
@@ -705,7 +705,10 @@ class Interp:
 
     def loop_key(self, s):
         if isinstance(s, ast.For):
-            return f"for {ast.unparse(s.target)} in {ast.unparse(s.iter)}"
+            t = ast.unparse(s.target)
+            if isinstance(s.target, ast.Tuple) and t.startswith("(") and t.endswith(")"):
+                t = t[1:-1]
+            return f"for {t} in {ast.unparse(s.iter)}"
         return f"while {ast.unparse(s.test)}"
 
     def find_loop_spec(self, s):
@@ -1409,12 +1412,19 @@ class Interp:
         if isinstance(op, (ast.FloorDiv, ast.Mod)):
             if ctx.decide(y == 0, "div0"):
                 raise PyRaise(ZeroDivisionError, ("division or modulo by zero",))
-            q = ctx.fresh("q", "int")
             both_int = z3.is_int(x) and z3.is_int(y)
-            r = ctx.fresh("r", "int" if both_int else "real")
-            qq = q if both_int else z3.ToReal(q)
-            ctx.assume(x == qq * y + r)
-            ctx.assume(z3.If(y > 0, z3.And(r >= 0, r < y), z3.And(r <= 0, r > y)))
+            # floor division is a function of its operands: one (q, r) pair per operand pair and path
+            key = (z3.simplify(x).get_id(), z3.simplify(y).get_id())
+            cache = ctx.__dict__.setdefault("divmod_cache", {})
+            if key in cache:
+                q, r, _keep = cache[key]
+            else:
+                q = ctx.fresh("q", "int")
+                r = ctx.fresh("r", "int" if both_int else "real")
+                cache[key] = (q, r, (x, y))
+                qq = q if both_int else z3.ToReal(q)
+                ctx.assume(x == qq * y + r)
+                ctx.assume(z3.If(y > 0, z3.And(r >= 0, r < y), z3.And(r <= 0, r > y)))
             if isinstance(op, ast.FloorDiv):
                 return q if both_int else z3.ToReal(q)
             return r
@@ -1479,7 +1489,11 @@ class Interp:
                 pass
             else:
                 raise Undecided("ordering of symbolic strings")
+        if isinstance(a, (list, tuple)) and isinstance(b, (list, tuple)) and not (deep_concrete(a) and deep_concrete(b)):
+            return self.lex_compare(op, list(a), list(b))
         if not is_sym(a) and not is_sym(b):
+            if not (deep_concrete(a) and deep_concrete(b)):
+                raise Undecided(f"ordering of {type(a).__name__} and {type(b).__name__} holding symbolic values")
             import operator as O
 
             fn = {ast.Lt: O.lt, ast.LtE: O.le, ast.Gt: O.gt, ast.GtE: O.ge}[type(op)]
@@ -1497,6 +1511,25 @@ class Interp:
         if isinstance(op, ast.GtE):
             return x >= y
         raise Undecided("comparison operator")
+
+    def lex_compare(self, op, a, b):
+        """Lexicographic ordering of two static sequences with symbolic elements (tuple / list semantics)."""
+        strict = isinstance(op, (ast.Lt, ast.Gt))
+        base = ast.Lt() if isinstance(op, (ast.Lt, ast.LtE)) else ast.Gt()
+        n = min(len(a), len(b))
+        # result = OR_k (prefix equal up to k and a[k] < b[k])  OR  (all n equal and length rule)
+        alts = []
+        eq_prefix = []
+        for k in range(n):
+            lt = self.truthy(self.compare(base, a[k], b[k]))
+            alts.append(_conj(eq_prefix + [lt]))
+            eq_prefix = eq_prefix + [self.truthy(self.equals(a[k], b[k]))]
+        if isinstance(base, ast.Lt):
+            tail = (len(a) < len(b)) if strict else (len(a) <= len(b))
+        else:
+            tail = (len(a) > len(b)) if strict else (len(a) >= len(b))
+        alts.append(_conj(eq_prefix + [tail]))
+        return _disj(alts)
 
     def obj_compare(self, op, a, b):
         tbl = {ast.Lt: ("__lt__", "__gt__"), ast.LtE: ("__le__", "__ge__"), ast.Gt: ("__gt__", "__lt__"), ast.GtE: ("__ge__", "__le__")}
@@ -1604,6 +1637,10 @@ class Interp:
                 return False
             return _conj([self.equals(a[k], b[k]) for k in a])
         if not is_sym(a) and not is_sym(b):
+            if not (deep_concrete(a) and deep_concrete(b)):
+                if a is b:
+                    return True
+                raise Undecided(f"equality of {type(a).__name__} and {type(b).__name__} holding symbolic values")
             try:
                 return a == b
             except Exception as ex:
